@@ -10,17 +10,23 @@
 
 namespace sim {
 
+Json::Value genHookKillPlan(Rng& rng);
+KillRun runHookKillPlan();
+
 static Json::Value genC04(Rng& rng) {
   KillGenOpts o;
   o.separated = rng.chance(0.6);
   o.killFailP = rng.pick({0.0, 0.0, 0.3});
   o.churnP = 0.2;
   o.maxRulesets = 2;
-  Json::Value plan = genKillPlan(rng, o);
+  // 40 %: prekill hooks (base and drop-in) with deferred completion, so that
+  // kills are resumed on later ticks
+  Json::Value plan = rng.chance(0.4) ? genHookKillPlan(rng) : genKillPlan(rng, o);
   // processes survive SIGKILL in this world so that the wet and the dry
   // history stay comparable beyond the first kill
   plan["kill"]["default"]["linger"] = -1;
   plan["cgroup_kill_noop"] = true;
+  plan["hook_dur_by_victim"] = true;
   // the wet kill's retry sleeps must not shift the wet clock against the dry
   // one (pause windows are compared tick by tick)
   plan["sleep_noadvance"] = true;
@@ -127,7 +133,7 @@ static void runC04() {
   pid_t pid = fork();
   if (pid == 0) {
     close(pfd[0]);
-    KillRun kr = runKillPlan();
+    KillRun kr = runHookKillPlan();
     Json::Value out(Json::objectValue);
     out["ran"] = kr.dr.ran;
     out["invs"] = summarise(kr).toJson();
@@ -173,7 +179,7 @@ static void runC04() {
     for (auto& a : rs["actions"])
       if (a["name"].asString() == "sim_wrap")
         a["args"]["dry"] = "true";
-  KillRun kr = runKillPlan();
+  KillRun kr = runHookKillPlan();
   if (!kr.dr.ran) {
     if (R.violations.empty())
       violate("C04.valid-config-rejected",
